@@ -594,6 +594,22 @@ func (m *monitor) build(pkts []rtcp.Packet) {
 			}
 			if base > prev.hi {
 				m.nGaps++
+				// "consecutive ranges": the one gap a correct recorder leaves is when it gives up
+				// on numbers missing too long ago - the packet after the gap then starts with
+				// 0x7FFE not-received statuses. A packet that starts right at (or near) its first
+				// received number after a gap has dropped the losses in between.
+				firstRecv := -1
+				for i, sy := range d.symbols {
+					if sy != 0 {
+						firstRecv = i
+						break
+					}
+				}
+				if firstRecv >= 0 && firstRecv < 0x7FFE {
+					m.violation("ranges", "not-consecutive", "build %d: packet %d ends at %d, packet %d starts at %d (%d numbers covered by no packet of the build) although its first received status is only %d after its base",
+						m.nBuild, k-1, prev.hi, k, base, base-prev.hi, firstRecv)
+					return
+				}
 				for idx := prev.hi; idx < base; idx++ {
 					if st := m.num(idx); st != nil {
 						for _, a := range st.cands {
@@ -1042,11 +1058,18 @@ func runDirect(c *vf.Case) {
 	if r.Chance(0.1) {
 		doBuild() // before anything was recorded
 	}
+	var prevSeq uint16
 	for !src.done() && !m.dead {
 		seq := uint16(src.next())
 		if m.wouldTie(seq) {
 			seq++
 		}
+		if seq != prevSeq+1 && r.Chance(0.15) {
+			// a loss burst (or a jump) directly followed by a pause long enough to split the
+			// next build's report between two feedback packets at exactly this packet
+			clk.now += int64(r.Pick(8191876, 8192000, 8200000, 9000000, 20000000))
+		}
+		prevSeq = seq
 		t := clk.next()
 		rec.Record(ssrcs[r.Intn(len(ssrcs))], seq, t)
 		m.record(seq, t)
